@@ -104,13 +104,16 @@ class Gen:
                         data.append(datadef("inj_" + key, kind, a=key, dflt=dflt))
             if self.elems:
                 data.append(datadef("cid", "id"))
+                data.append(datadef("me", "self"))
             comps.append({"data": data, "tpl": None, "assets": no_assets()})
         for i in range(n, 0, -1):
             comps[i - 1]["tpl"] = self.nodes(lex=i, depth=self.depth, in_fill=None, top=True)
             if self.elems:
                 comps[i - 1]["tpl"].insert(0, {"t": "var", "x": "cid"})
+                if r.random() < 0.5:
+                    comps[i - 1]["tpl"].append({"t": "fld", "x": "me", "f": "id"})
         ctx = [["x", S("px")], ["y", S("py")], ["xs", L(["i1", "i2"])], ["sn", L(["a", "b"])],
-               ["on", S("1")], ["off", S("")], ["sa", S("a")], ["one", L(["o1"])]]
+               ["on", S("1")], ["off", S("")], ["sa", S("a")], ["one", L(["o1"])], ["fl", L(["", "f1", ""])]]
         page = self.nodes(lex=0, depth=self.depth, in_fill=None, top=True)
         if not any(self._has_comp(nd) for nd in page):
             page.append(self.comp(lex=0, depth=self.depth, in_fill=None))
@@ -186,13 +189,14 @@ class Gen:
                     "a": self.nodes(lex, depth - 1, in_fill), "b": self.nodes(lex, depth - 1, in_fill) if r.random() < 0.5 else []}
         if t == "for":
             lv = r.choice(["i", "i", "x"]) if self.collide else "i"
-            return {"t": "for", "x": lv, "xs": r.choice(["xs", "xs", "ys"]), "a": self.nodes(lex, depth - 1, in_fill)}
+            return {"t": "for", "x": lv, "xs": r.choice(["xs", "xs", "ys", "fl"]), "a": self.nodes(lex, depth - 1, in_fill)}
         if t == "with":
             wv = r.choice(["w", "w", "x", "y"]) if self.collide else "w"
             return {"t": "with", "x": wv, "e": self.expr(), "a": self.nodes(lex, depth - 1, in_fill)}
         if t == "slot":
             name = r.choice(self.SLOTS)
-            d = self.default_slot.get(lex) == name
+            # flags are per tag: most tags of the default slot's name carry the flag, some do not
+            d = self.default_slot.get(lex) == name and r.random() < 0.85
             data = [["k", self.expr()]] + ([["m", self.expr()]] if r.random() < 0.5 else []) if r.random() < 0.6 else []
             return {"t": "slot", "n": name, "d": d, "r": r.random() < self.required, "data": data,
                     "a": self.nodes(lex, depth - 1, in_fill) if r.random() < 0.8 else []}
@@ -234,8 +238,8 @@ class Gen:
                 ne = V("sa")
             f = self.fill(lex, depth, ne, in_fill)
             w = r.random()
-            if w < 0.12:
-                f = {"t": "if", "x": r.choice(["on", "on", "off", "x"]), "a": [f], "b": []}
+            if w < 0.16:
+                f = {"t": "if", "x": r.choice(["on", "on", "off", "x", "i", "i"]), "a": [f], "b": []}
             elif w < 0.24 and self.withs:
                 wv = r.choice(["w", "x"]) if self.collide else "w"
                 f = {"t": "with", "x": wv, "e": self.expr(), "a": [f]}
@@ -401,6 +405,8 @@ def make_component(prog, idx: int, tag: str, log: Optional[list] = None, extra: 
                 d[e["x"]] = e["v"]
             elif k == "id":
                 d[e["x"]] = self.id
+            elif k == "self":
+                d[e["x"]] = self
             elif k == "clist":
                 d[e["x"]] = [e["v"] + "1", e["v"] + "2"]
             elif k == "kwarg":
